@@ -217,11 +217,13 @@ def _one(rng, tier, big=False):
     else:
         schema = {"t": "call", "mode": rng.choice(["faithful", "faithful", "drop_one", "wrong_one"])}
     pre = []
-    if jobs and rng.random() < 0.12:
+    if jobs and rng.random() < 0.2:
         if rng.random() < 0.6:
             pre.append({"sp": jobs[rng.randrange(len(jobs))]["sp"], "files": {"old.txt": b"old".hex()}})
         else:
             pre.append({"sp": typed({"unrelated": 1}), "files": {"old.txt": b"old".hex()}})
+    if u == "seps" and path["t"] in ("fmt", "call") and kind.startswith("tar"):
+        kind = rng.choice(["dir", "zip"])     # inner '..' in tar member names: outside the model's domain
     strip = kind == "dir" and schema["t"] != "none" and rng.random() < 0.35
     return {"universe": u, "jobs": jobs, "asc": rng.random() < 0.6, "kind": kind, "path": path, "schema": schema,
             "pre": pre, "strip": strip}
@@ -247,6 +249,25 @@ FIXED = [
      "asc": True, "kind": "tar", "path": {"t": "none"}, "schema": {"t": "none"}, "pre": [], "strip": False},
     {"universe": "F19", "jobs": [{"sp": typed({"a": v}), "files": {}} for v in ("x", "../../zz")],
      "asc": True, "kind": "dir", "path": {"t": "none"}, "schema": {"t": "none"}, "pre": [], "strip": False},
+    {"universe": "F6-overwrite",
+     "jobs": [{"sp": typed({"a": 2}), "files": {"f.txt": b"two".hex()}}, {"sp": typed({"a": 10}), "files": {"f.txt": b"ten".hex()}}],
+     "asc": True, "kind": "zip",
+     "path": {"t": "call", "names": ["4", "42b7b4f2921788ea14dac5566e6f06d0"], "mode": "byid_desc"},
+     "schema": {"t": "none"}, "pre": [{"sp": typed({"a": 1}), "files": {"f.txt": b"one".hex()}}], "strip": False},
+    {"universe": "F20", "jobs": [{"sp": typed({"a": 1}), "files": {}}, {"sp": typed({"a": 2}), "files": {}}],
+     "asc": True, "kind": "dir", "path": {"t": "call", "names": [".", "r1"], "mode": "byid_asc"},
+     "schema": {"t": "none"}, "pre": [], "strip": False},
+    {"universe": "F21", "jobs": [{"sp": typed({"a": 1}), "files": {"emptydir": None}}, {"sp": typed({"a": 2}), "files": {}}],
+     "asc": True, "kind": "zip", "path": {"t": "none"}, "schema": {"t": "none"}, "pre": [], "strip": False},
+    {"universe": "pre-dir", "jobs": [{"sp": typed({"a": v}), "files": {"f.txt": b"new".hex()}} for v in (1, 2, 3)],
+     "asc": True, "kind": "dir", "path": {"t": "none"}, "schema": {"t": "none"},
+     "pre": [{"sp": typed({"a": 2}), "files": {"f.txt": b"old".hex()}}], "strip": False},
+    {"universe": "pre-zip", "jobs": [{"sp": typed({"a": v}), "files": {"f.txt": b"new".hex()}} for v in (1, 2, 3)],
+     "asc": False, "kind": "zip", "path": {"t": "false"}, "schema": {"t": "none"},
+     "pre": [{"sp": typed({"a": 2}), "files": {"f.txt": b"old".hex()}}], "strip": False},
+    {"universe": "pre-tar", "jobs": [{"sp": typed({"a": v}), "files": {"f.txt": b"new".hex()}} for v in (1, 2, 3)],
+     "asc": False, "kind": "tar.gz", "path": {"t": "false"}, "schema": {"t": "none"},
+     "pre": [{"sp": typed({"a": 2}), "files": {"f.txt": b"old".hex()}}], "strip": False},
     {"universe": "schema", "jobs": [{"sp": typed({"a": v, "b": w}), "files": {"f.txt": b"x".hex()}}
                                     for v, w in ((1, "x"), (10, "y"), (-3, "x_1"))],
      "asc": False, "kind": "dir", "path": {"t": "fmt", "segs": [["lit", "a/"], ["key", ["a"]], ["lit", "/b/"], ["key", ["b"]]]},
@@ -256,7 +277,7 @@ FIXED = [
 
 def gen_inputs(tier, rng):
     descs = [dict(d) for d in FIXED]
-    n = 230 if tier == "quick" else 6000
+    n = 225 if tier == "quick" else 6000
     for i in range(n):
         descs.append(_one(rng, tier, big=(tier != "quick" and i % 3 == 0) or (tier == "quick" and i % 12 == 0)))
     return descs
@@ -395,7 +416,7 @@ def derive_schema(dst, sp, wrong):
     out, i = [], 0
     while i < len(toks):
         t = toks[i]
-        if t in keys and i + 1 < len(toks):
+        if t in keys and i + 1 < len(toks) and all(ch.isalnum() or ch in "._" for ch in t):
             v, _ = get_path(sp, keys[t])
             ty = ("bool" if isinstance(v, bool) else "int" if isinstance(v, int) else "float" if isinstance(v, float)
                   else "str")
@@ -411,7 +432,10 @@ def derive_schema(dst, sp, wrong):
 
 
 def run_case(desc):
+    import logging
+
     import signac
+    logging.disable(logging.CRITICAL)
     from signac._utility import _to_hashable  # noqa: F401  (kept for parity with the index)
 
     asc = desc["asc"]
@@ -495,8 +519,8 @@ def run_case(desc):
                 pyspec = render_fmt(p["segs"])
                 cspec = "(PFmt %s)" % coq_list([coq_seg(s) for s in p["segs"]], "seg")
             else:
-                if p.get("mode") == "byid_asc":
-                    order = sorted(ids)
+                if p.get("mode") in ("byid_asc", "byid_desc"):
+                    order = sorted(ids, reverse=p["mode"] == "byid_desc")
                     table = {i: p["names"][k] for k, i in enumerate(order)}
                 else:
                     table = {j.id: p["names"][by_index[j.id]] for j in jobs}
@@ -582,7 +606,7 @@ def run_case(desc):
                         intended[keys[-1]] = {"wrong": 1}
 
                     def pyschema(path, intended=intended):
-                        rel = os.path.normpath(os.path.relpath(path, target)) if mk == "dir" else path
+                        rel = os.path.normpath(os.path.relpath(path, target) if mk == "dir" else path)
                         r = intended.get(rel)
                         calls[rel] = r
                         return r
